@@ -3,6 +3,8 @@
 Sections
   sp         dijkstra / floyd / compact_neighb: model (code as written) vs implementation,
              proved-sound certificate checker verdict vs brute force, distances vs Floyd-Warshall
+  floyd      floyd(seed): None / sorted / unsorted / repeated / strided / empty seed arrays, row i vs seed[i];
+             model floyd_code and the proved-sound matrix certificate floyd_rows_check
   cc         cc / main_cc / is_connected on symmetric graphs
   voronoi    voronoi_labelling, all seed sets on small graphs
   msf        kruskal (model vs impl, forest / same components / minimum weight), mst(X)
@@ -1917,6 +1919,7 @@ def run(ck):
                       "self-loops, one parallel edge, shuffled edge order, all single seeds + a seed set; random digraphs up to "
                       "100 (200) vertices with several components, zero weights and ties.  sym: every symmetric graph on <=4 "
                       "(thorough: patterns on 5) vertices: cc, kruskal, voronoi over all seed sets (V<=3; V<=4 thorough).  "
+                      "floyd: each graph with seed=None and explicit seed arrays (single, sorted, unsorted, reversed view, repeated, strided view, empty; list/intp/int32/int64).  "
                       "distinct by (section, V, edge list); non-trivial when the graph has an edge")
     import time
     ta = time.time()
